@@ -57,13 +57,43 @@ Fixpoint expand (fuel : nat) (ds : list bool) (es : list ev) {struct fuel} : lis
       end
   end.
 
+(* ---- normal form in which code paths and model paths are compared.  What matters for the
+   interleaving semantics is the synchronisation skeleton (Acq/Rel/Write), every shared WRITE, and
+   every read that is NOT protected by the lock that guards the field's writes.  A read of a field
+   under its lock adds no behaviour (nobody can write in between), so guarded reads are dropped:
+   harmless edits such as an extra `if self._started` inside a critical section do not break the tie;
+   a new lock operation, shared write, unguarded read or file write does. *)
+Definition need (write : bool) (f : string) : option string :=
+  if String.eqb f "Console._record_buffer" then Some "Console._record_buffer_lock"
+  else if String.eqb f "Console.file" then Some "Console._lock"
+  else if String.eqb f "LiveRender._shape" || String.eqb f "LiveRender.renderable" || String.eqb f "Live._started"
+  then Some "Live._lock"
+  else if String.eqb f "Console._render_hooks" then (if write then Some "Live._lock" else None)
+       (* print/log iterate over _render_hooks WITHOUT a lock: see hooks_read_unguarded *)
+  else Some "UNKNOWN-FIELD".
+Definition holds (held : list string) (o : option string) : bool :=
+  match o with None => true | Some l => existsb (String.eqb l) held end.
+Fixpoint remove_first (l : string) (held : list string) : list string :=
+  match held with [] => [] | h :: r => if String.eqb h l then r else h :: remove_first l r end.
+Fixpoint nf (held : list string) (p : list ev) : list ev :=
+  match p with
+  | [] => []
+  | Acq l :: r => Acq l :: nf (l :: held) r
+  | Rel l :: r => Rel l :: nf (remove_first l held) r
+  | Rd f :: r => match need false f with
+                 | Some l => if existsb (String.eqb l) held then nf held r else Rd f :: nf held r
+                 | None => Rd f :: nf held r
+                 end
+  | x :: r => x :: nf held r
+  end.
+
 (* what other threads can see: lock operations, shared reads/writes, the write (and error marks) *)
 Definition vis_ev (e : ev) : bool :=
   match e with Local _ => false | _ => true end.
 Definition path (m : string) (ds : list bool) : option (list ev) :=
   match lookup m lock_table with
   | Some b => let '(p, rest) := expand 40 ds b in
-              if is_nil rest then Some (filter vis_ev p) else None
+              if is_nil rest then Some (nf [] (filter vis_ev p)) else None
   | None => None
   end.
 
@@ -76,8 +106,9 @@ Definition footprint (i : instr) : list ev :=
   | IRecord | IEndCap => [Wr "Console._record_buffer"]
   | IWrite => [Rd "Console.file"; Write; Rd "Console.file"]
   | IRdHooks _ => [Rd "Console._render_hooks"]
-  | IRdShape => [Rd "LiveRender._shape"; Rd "LiveRender._shape"]
+  | IRdShape => [Rd "LiveRender._shape"]
   | IRenderLive => [Rd "LiveRender.renderable"; Wr "LiveRender._shape"]
+  | IResetShape => [Wr "LiveRender._shape"]
   | ISetRend _ _ => [Wr "LiveRender.renderable"]
   | IStart | IStop => [Rd "Live._started"]
   | ISetStarted _ => [Wr "Live._started"]
@@ -98,11 +129,11 @@ Fixpoint solo (fuel : nat) (rep : bool) (s : shared) (ts : tstate) : list instr 
            end
   end.
 Definition model_path (live : bool) (sh0 : option nat) (d0 : Z) (p : list instr) : list ev :=
-  flat_map footprint
-    (solo 200 false (init_shared live sh0 (1, 2%nat)) (mkT p [Txt 0%nat 0] d0 [] [])).
+  nf [] (flat_map footprint
+    (solo 200 false (init_shared live sh0 (1, 2%nat)) (mkT p [Txt 0%nat 0] d0 [] []))).
 
 (* ---- bridge: for each modelled method and each valuation of its dynamic conditions, the
-   visible events of the code path are exactly the events of the model's instruction sequence.
+   normal form of the code path is the normal form of the model's instruction sequence.
    (buffer pre-filled with one line so that the `if text:` write happens.) *)
 Example bridge_print_unhooked :
   path "Console.print" [false; true; false; false; true]
@@ -173,16 +204,6 @@ Example bridge_stop_not_started :
 Proof. vm_compute. reflexivity. Qed.
 
 (* ---- lock discipline computed on the table (T3) *)
-Definition need (write : bool) (f : string) : option string :=
-  if String.eqb f "Console._record_buffer" then Some "Console._record_buffer_lock"
-  else if String.eqb f "Console.file" then Some "Console._lock"
-  else if String.eqb f "LiveRender._shape" || String.eqb f "LiveRender.renderable" || String.eqb f "Live._started"
-  then Some "Live._lock"
-  else if String.eqb f "Console._render_hooks" then (if write then Some "Live._lock" else None)
-       (* print/log iterate over _render_hooks WITHOUT a lock: see hooks_read_unguarded *)
-  else Some "UNKNOWN-FIELD".
-Definition holds (held : list string) (o : option string) : bool :=
-  match o with None => true | Some l => existsb (String.eqb l) held end.
 (* methods that rely on their caller holding the live lock *)
 Definition assumes (m : string) : list string :=
   if existsb (String.eqb m) ["LiveRender.position_cursor"; "LiveRender.restore_cursor"; "LiveRender.set_renderable";
@@ -258,7 +279,7 @@ Proof. reflexivity. Qed.
 (* D17: the live lock is released right after position_cursor(); rendering and the write happen later *)
 Example d17_lock_released_before_write :
   path "Live.process_renderables" [true]
-  = Some [Acq "Live._lock"; Rd "LiveRender._shape"; Rd "LiveRender._shape"; Rel "Live._lock"].
+  = Some [Acq "Live._lock"; Rel "Live._lock"].
 Proof. vm_compute. reflexivity. Qed.
 Example progress_hook_unlocked :
   lookup "Progress.process_renderables" lock_table = Some [Call "LiveRender.position_cursor"].
